@@ -42,6 +42,7 @@ impl Rep {
 pub fn run(obligation: &str) -> i32 {
     let mut rep = Rep::new();
     if obligation.starts_with("C03.") { c03_apply_tagenv(&mut rep); return rep.finish("C03_apply_tagenv"); }
+    if ["C02.link_components_of", "C05.link_components_of", "C02.has_components_of", "C05.lemma.", "C02.lemma."].iter().any(|p| obligation.starts_with(p)) { c02_components_of(&mut rep); return rep.finish("C02_components_of"); }
     if obligation.starts_with("C02.needs_unnesting") { c02_needs_unnesting(&mut rep); return rep.finish("C02_unnesting"); }
     if obligation.starts_with("C02.") || obligation.starts_with("C05.") { c02_c05_assembly(&mut rep); return rep.finish("C02_C05_assembly"); }
     if ["C04.constraint_link", "C04.set_link", "C04.element_link"].iter().any(|p| obligation.starts_with(p)) { c04_link(&mut rep); return rep.finish("C04_link"); }
@@ -618,6 +619,25 @@ fn c04_bounds(rep: &mut Rep) {
                 }
             } }
         } } }
+        // four elements `a op1 b op2 c op3 d`, nested to the right as the parser does; the reference evaluates the flat chain as a
+        // UNION of INTERSECTIONs (X.680 clause 50), independent of any nesting
+        let sub: Vec<&(SubtypeElements, String)> = leaves.iter().step_by(2).collect();
+        for (a, ta) in &sub { for (b, tb) in &sub { for (c, tc) in &sub { for (dd, td) in sub.iter().step_by(2) {
+            for (op1, t1) in &ops { for (op2, t2) in &ops { for (op3, t3) in &ops {
+                let i3 = SetOperation { base: c.clone(), operator: op3.clone(), operant: Box::new(ElementOrSetOperation::Element(dd.clone())) };
+                let i2 = SetOperation { base: b.clone(), operator: op2.clone(), operant: Box::new(ElementOrSetOperation::SetOperation(i3)) };
+                let set = SetOperation { base: a.clone(), operator: op1.clone(), operant: Box::new(ElementOrSetOperation::SetOperation(i2)) };
+                let d = || format!("({ta} {t1} {tb} {t2} {tc} {t3} {td})");
+                let elems = [a, b, c, dd];
+                let opsq = [*t1, *t2, *t3];
+                let in_set = |v: i128| { let mut any = false; let mut cur = permits(elems[0], v); for k in 0..3 { if opsq[k] == "|" { any = any || cur; cur = permits(elems[k + 1], v); } else { cur = cur && permits(elems[k + 1], v); } } any || cur };
+                let r = hook_fold_constraint_set(&set);
+                if let Ok(Some(f)) = &r {
+                    rep.check("C04.fold_constraint_set.never_excludes_a_permitted_value", probes.iter().all(|v| !in_set(*v) || permits(f, *v)), d);
+                    rep.check("C04.fold_constraint_set.extensible_iff_an_operand_is", ext(f) == elems.iter().any(|e| ext(e)), d);
+                }
+            } } }
+        } } } }
     }
     for a in &opts { for b in &opts { for take_min in [false, true] {
         let d = || format!("first={:?} second={:?} predicate={}", int(a), int(b), if take_min { "min" } else { "max" });
@@ -1047,4 +1067,119 @@ fn c04_link(rep: &mut Rep) {
                      "C04.element_link.single_value_and_both_range_ends_resolved_markers_kept", "C04.element_link.single_type_constraints_linked_so_far"] { rep.check(name, ok, d); }
     }
     for n in ["C04.constraint_link.safety", "C04.set_link.safety", "C04.element_link.safety"] { rep.check(n, true, || String::new()); }
+}
+
+// ---------------------------------------------------------------------------------------------- C02 / C05 (unit C02_components_of)
+// Executable copy of `type_linked` / `included`: the expected tree is built by an independent recursive function (own components in
+// order, the root components of every clause in front of the first addition, index moved by their number) and compared with what
+// the real link_components_of_notation leaves behind, over generated type trees (depth <= 3) and a small definition map whose
+// referenced types are extensible or not, with members after their marker, SET or SEQUENCE, or no constructed type at all.
+fn c02co_root(tlds: &BTreeMap<String, ToplevelDefinition>, name: &str) -> Vec<SequenceOrSetMember> {
+    match tlds.get(name) {
+        Some(ToplevelDefinition::Type(t)) => match &t.ty {
+            ASN1Type::Sequence(ls) | ASN1Type::Set(ls) => match ls.extensible { Some(k) if k <= ls.members.len() => ls.members[..k].to_vec(), _ => ls.members.clone() },
+            _ => vec![],
+        },
+        _ => vec![],
+    }
+}
+fn c02co_expected(t: &ASN1Type, tlds: &BTreeMap<String, ToplevelDefinition>) -> ASN1Type {
+    let seq = |s: &SequenceOrSet| {
+        let own: Vec<SequenceOrSetMember> = s.members.iter().map(|m| SequenceOrSetMember { ty: c02co_expected(&m.ty, tlds), ..m.clone() }).collect();
+        let inc: Vec<SequenceOrSetMember> = s.components_of.iter().flat_map(|n| c02co_root(tlds, n)).collect();
+        let k = s.extensible.unwrap_or(own.len());
+        let mut members = own[..k].to_vec();
+        members.extend(inc.iter().cloned());
+        members.extend(own[k..].iter().cloned());
+        SequenceOrSet { components_of: s.components_of.clone(), extensible: s.extensible.map(|k| k + inc.len()), constraints: s.constraints.clone(), members }
+    };
+    match t {
+        ASN1Type::Sequence(s) => ASN1Type::Sequence(seq(s)),
+        ASN1Type::Set(s) => ASN1Type::Set(seq(s)),
+        ASN1Type::Choice(c) => ASN1Type::Choice(Choice { options: c.options.iter().map(|o| ChoiceOption { ty: c02co_expected(&o.ty, tlds), ..o.clone() }).collect(), ..c.clone() }),
+        ASN1Type::SequenceOf(s) => ASN1Type::SequenceOf(SequenceOrSetOf { element_type: Box::new(c02co_expected(&s.element_type, tlds)), ..s.clone() }),
+        ASN1Type::SetOf(s) => ASN1Type::SetOf(SequenceOrSetOf { element_type: Box::new(c02co_expected(&s.element_type, tlds)), ..s.clone() }),
+        other => other.clone(),
+    }
+}
+fn c02co_has(t: &ASN1Type) -> bool {
+    match t {
+        ASN1Type::Choice(c) => c.options.iter().any(|o| c02co_has(&o.ty)),
+        ASN1Type::Sequence(s) | ASN1Type::Set(s) => !s.components_of.is_empty() || s.members.iter().any(|m| c02co_has(&m.ty)),
+        ASN1Type::SequenceOf(s) | ASN1Type::SetOf(s) => c02co_has(&s.element_type),
+        _ => false,
+    }
+}
+fn c02co_leaf(name: &str, tagged: bool) -> SequenceOrSetMember {
+    SequenceOrSetMember { name: name.into(), tag: if tagged { Some(AsnTag { environment: TaggingEnvironment::Implicit, tag_class: TagClass::ContextSpecific, id: 7 }) } else { None },
+        ty: ASN1Type::Boolean(Boolean { constraints: vec![] }), optionality: Optionality::Required, is_recursive: false, constraints: vec![] }
+}
+fn c02co_type(r: &mut Lcg, depth: usize) -> ASN1Type {
+    let k = if depth == 0 { 5 + r.next(3) } else { r.next(8) };
+    let refs = ["Plain", "Ext", "ExtTail", "BaseSet", "NotConstructed", "Missing", "ExtEmptyRoot", "AllRootMarkerLast"];
+    let seq = |r: &mut Lcg| {
+        let n = r.next(4);
+        let members: Vec<SequenceOrSetMember> = (0..n).map(|i| SequenceOrSetMember { name: format!("own{i}"), tag: None, ty: c02co_type(r, depth.saturating_sub(1)),
+            optionality: if r.next(2) == 0 { Optionality::Required } else { Optionality::Optional }, is_recursive: false, constraints: vec![] }).collect();
+        let extensible = if r.next(2) == 0 { None } else { Some(r.next(n + 1)) };
+        let components_of = (0..r.next(3)).map(|_| refs[r.next(refs.len())].to_string()).collect();
+        SequenceOrSet { components_of, extensible, constraints: vec![], members }
+    };
+    match k {
+        0 | 1 => ASN1Type::Sequence(seq(r)),
+        2 => ASN1Type::Set(seq(r)),
+        3 => ASN1Type::Choice(Choice { extensible: if r.next(2) == 0 { None } else { Some(1) }, constraints: vec![], options: (0..1 + r.next(3)).map(|i| ChoiceOption { name: format!("alt{i}"), tag: None,
+                ty: c02co_type(r, depth.saturating_sub(1)), constraints: vec![], is_recursive: false }).collect() }),
+        4 => if r.next(2) == 0 { ASN1Type::SequenceOf(SequenceOrSetOf { constraints: vec![], element_tag: None, element_type: Box::new(c02co_type(r, depth.saturating_sub(1))), is_recursive: false }) }
+             else { ASN1Type::SetOf(SequenceOrSetOf { constraints: vec![], element_tag: None, element_type: Box::new(c02co_type(r, depth.saturating_sub(1))), is_recursive: false }) },
+        5 => ASN1Type::Boolean(Boolean { constraints: vec![] }),
+        6 => ASN1Type::Null,
+        _ => ASN1Type::ElsewhereDeclaredType(DeclarationElsewhere { parent: None, module: None, identifier: "Other".into(), constraints: vec![] }),
+    }
+}
+fn c02_components_of(rep: &mut Rep) {
+    let tld = |name: &str, ty: ASN1Type| (name.to_string(), ToplevelDefinition::Type(ToplevelTypeDefinition { comments: String::new(), tag: None, name: name.into(), ty, parameterization: None, module_header: None }));
+    let base = |ext: Option<usize>, names: &[&str]| SequenceOrSet { components_of: vec![], extensible: ext, constraints: vec![], members: names.iter().enumerate().map(|(i, n)| c02co_leaf(n, i % 2 == 1)).collect() };
+    let tlds: BTreeMap<String, ToplevelDefinition> = [
+        tld("Plain", ASN1Type::Sequence(base(None, &["p1", "p2"]))),
+        tld("Ext", ASN1Type::Sequence(base(Some(2), &["e1", "e2"]))),
+        tld("ExtTail", ASN1Type::Sequence(base(Some(1), &["t1", "tAdd1", "tAdd2"]))),
+        tld("BaseSet", ASN1Type::Set(base(Some(2), &["s1", "s2", "sAdd"]))),
+        tld("NotConstructed", ASN1Type::Boolean(Boolean { constraints: vec![] })),
+        tld("ExtEmptyRoot", ASN1Type::Sequence(base(Some(0), &["onlyAdd"]))),
+        tld("AllRootMarkerLast", ASN1Type::Set(base(Some(3), &["r1", "r2", "r3"]))),
+    ].into_iter().collect();
+    let mut r = Lcg(0xc0de);
+    for n in 0..20000 {
+        let ty = c02co_type(&mut r, 1 + n % 3);
+        let want = c02co_expected(&ty, &tlds);
+        let mut got = ty.clone();
+        let has = got.contains_components_of_notation();
+        rep.check("C02.has_components_of.a_clause_at_any_nesting_depth_is_never_overlooked", has == c02co_has(&ty), || format!("type: {ty:?}; answered {has}"));
+        for nm in ["C02.has_components_of.alternatives_scanned_so_far", "C02.has_components_of.components_scanned_so_far", "C02.has_components_of.safety"] {
+            rep.check(nm, has == c02co_has(&ty), || format!("type: {ty:?}; answered {has}"));
+        }
+        got.link_components_of_notation(&tlds);
+        let ok = got == want;
+        let is_seq = matches!(ty, ASN1Type::Sequence(_)); let is_set = matches!(ty, ASN1Type::Set(_)); let is_choice = matches!(ty, ASN1Type::Choice(_));
+        let d = || format!("type before: {ty:?}; after: {got:?}; expected: {want:?}");
+        rep.check("C02.link_components_of.own_components_in_order_plus_exactly_the_root_components_of_every_clause_at_every_depth", ok, d);
+        rep.check("C02.link_components_of.safety", ok, d);
+        if is_choice { rep.check("C02.link_components_of.alternatives_done_so_far", ok, d); }
+        if is_set { for nm in ["C02.link_components_of.set_components_done_so_far", "C02.link_components_of.set_clauses_expanded_so_far_sit_in_front_of_the_first_addition", "C02.link_components_of.set_only_root_components_of_the_referenced_type_are_included_in_order"] { rep.check(nm, ok, d); } }
+        if is_seq { for nm in ["C02.link_components_of.sequence_components_done_so_far", "C02.link_components_of.sequence_clauses_expanded_so_far_sit_in_front_of_the_first_addition", "C02.link_components_of.sequence_only_root_components_of_the_referenced_type_are_included_in_order"] { rep.check(nm, ok, d); } }
+        // C05: the first-addition index of every SEQUENCE / SET of the tree (compared position by position on the two trees)
+        fn indices(t: &ASN1Type, out: &mut Vec<Option<usize>>) {
+            match t {
+                ASN1Type::Sequence(s) | ASN1Type::Set(s) => { out.push(s.extensible); s.members.iter().for_each(|m| indices(&m.ty, out)); }
+                ASN1Type::Choice(c) => c.options.iter().for_each(|o| indices(&o.ty, out)),
+                ASN1Type::SequenceOf(s) | ASN1Type::SetOf(s) => indices(&s.element_type, out),
+                _ => (),
+            }
+        }
+        let (mut gi, mut wi) = (vec![], vec![]);
+        indices(&got, &mut gi); indices(&want, &mut wi);
+        if is_set { rep.check("C05.link_components_of.set_first_addition_index_moves_with_every_included_component", gi == wi, || format!("first-addition indices {gi:?}, expected {wi:?}; type before: {ty:?}")); }
+        if is_seq { rep.check("C05.link_components_of.sequence_first_addition_index_moves_with_every_included_component", gi == wi, || format!("first-addition indices {gi:?}, expected {wi:?}; type before: {ty:?}")); }
+    }
 }
